@@ -12,6 +12,17 @@ from lib.evidence import Report
 from checks import algebra as alg
 
 
+def _restrict2_job(args):
+    cid, cfg, u0b = args
+    from harness import zp_cases
+    try:
+        out = zp_cases.run_restrict_twice_case(cfg, u0b)
+    except Exception as e:  # noqa
+        from lib.errors import describe
+        return dict(error=describe(e, 300))
+    return dict(id=cid, mode='restrict2', kind=cfg['kind'], levels=cfg['levels'], transfers=cfg['transfers'], u0b=u0b, U=cfg['U'], out=out)
+
+
 def _iter_job(args):
     cid, cfg = args
     from harness import zp_runs
@@ -141,6 +152,39 @@ def run(tier, seed):
                         nontrivial += 1
                         for clause in viol[:2]:
                             rep.violation('alg.' + clause, dict(kind='iteration', P=P, clause=clause, all=viol, case=bycid[cid]))
+            # history of transfers: restriction down three levels repeated after a new initial value arrived on the finest level
+            r2cfgs = []
+            for k in range(120 if tier == 'quick' else 1500):
+                P = rng.choice([3, 5, 5])
+                c3 = zp_runs.iteration_config(rng, P)
+                if c3['NL'] != 3:
+                    continue
+                z = lambda: rng.randrange(P)  # noqa
+                c3['U'] = [[z() for _ in range(c3['levels'][0]['n'])] for _ in range(c3['levels'][0]['M'])]
+                r2cfgs.append((len(r2cfgs) + 1, c3, [z() for _ in range(c3['levels'][0]['n'])]))
+            r2out = pool.map(_restrict2_job, r2cfgs, chunksize=4)
+            byP2 = {}
+            for (cid, c3, u0b), o in zip(r2cfgs, r2out):
+                if 'error' in o:
+                    rep.problem('repeated restriction failed: ' + o['error'], dict(kind='restrict-twice', cfg=c3), clause='hist.unexpected_library_error')
+                    continue
+                byP2.setdefault(c3['P'], []).append(o)
+            nr2 = 0
+            for P, cases in byP2.items():
+                chunks = [cases[i::8] for i in range(8)]
+                res = pool.map(alg._tv_validate_job, [(os.path.join(scratch, f'r2_{P}_{k}'), P, ch) for k, ch in enumerate(chunks) if ch], chunksize=1)
+                bycid = {c['id']: c for c in cases}
+                for verdicts, summ, raw in res:
+                    rep.states += summ['distinct']
+                    rep.transitions += summ['generated']
+                    if raw:
+                        rep.machinery.append('TraceSdcAlgebra (repeated restriction) did not return all verdicts: ' + raw[-300:])
+                    for cid, viol in verdicts.items():
+                        nr2 += 1
+                        rep.traces += 1
+                        for clause in viol[:2]:
+                            rep.violation('alg.' + clause, dict(kind='restrict-twice', P=P, clause=clause, all=viol, case=bycid[cid]))
+            rep.cov['repeated_restriction_cases'] = nr2
             rep.cov['multilevel_iteration_cases'] = nit
             rep.cov['multilevel_iteration_cases_skipped_singular'] = nskip
             r = noh1.get()
